@@ -338,6 +338,43 @@ fn check_xml(ctx: &Ctx, ep: &EnergyPerformance, xml: &str, second_opinion: bool,
     } else {
         t.violation("C17.xml_element_count", format!("XML has {} <Valores> elements for {} components and demands", vals.len(), want_vals.len()), || wit(json!({"xml": xml})));
     }
+    // tags of every component and factor, in document order (factors come first in the document)
+    {
+        let f = &ep.wfactors.wdata;
+        let mut want: Vec<(&str, Vec<String>)> = vec![];
+        want.push(("Id", c.data.iter().map(|e| e.id().to_string()).collect()));
+        let mut vectors: Vec<String> = f.iter().map(|x| x.carrier.to_string()).collect();
+        vectors.extend(c.data.iter().filter_map(|e| match e { Energy::Used(u) => Some(u.carrier.to_string()), _ => None }));
+        want.push(("Vector", vectors));
+        let mut origins: Vec<String> = f.iter().map(|x| x.source.to_string()).collect();
+        origins.extend(c.data.iter().filter_map(|e| match e { Energy::Prod(p) => Some(p.source.to_string()), _ => None }));
+        want.push(("Origen", origins));
+        let mut services: Vec<String> = c.data.iter().filter_map(|e| match e { Energy::Used(u) => Some(u.service.to_string()), Energy::Aux(a) => Some(a.service.to_string()), Energy::Out(o) => Some(o.service.to_string()), _ => None }).collect();
+        for (srv, nd) in [("ACS", &c.needs.ACS), ("CAL", &c.needs.CAL), ("REF", &c.needs.REF)] {
+            if nd.is_some() {
+                services.push(srv.to_string());
+            }
+        }
+        want.push(("Servicio", services));
+        want.push(("Destino", f.iter().map(|x| x.dest.to_string()).collect()));
+        want.push(("Paso", f.iter().map(|x| x.step.to_string()).collect()));
+        for (tag, w) in want {
+            let got = xmlwf::texts_of(&ev, tag);
+            if got != w {
+                let i = got.iter().zip(w.iter()).position(|(a, b)| a != b).unwrap_or(got.len().min(w.len()));
+                t.violation("C17.xml_tags", format!("XML <{tag}> sequence differs from the result at position {i}: {:?} vs {:?} ({} vs {} elements)", got.get(i), w.get(i), got.len(), w.len()), || wit(json!({"element": tag, "xml": xml})));
+            }
+        }
+        // factor values at three decimals
+        for (tag, vals) in [("ren", f.iter().map(|x| x.ren).collect::<Vec<f32>>()), ("nren", f.iter().map(|x| x.nren).collect()), ("co2", f.iter().map(|x| x.co2).collect())] {
+            let got = xmlwf::texts_of(&ev, tag);
+            let n = vals.len();
+            if got.len() < n || !got.iter().take(n).zip(vals.iter()).all(|(g, v)| g.trim().parse::<f64>().map(|p| printed_ok(p, *v as f64, 3)).unwrap_or(!v.is_finite())) {
+                t.violation("C17.xml_number", format!("XML factor values <{tag}> do not state the factors of the result at three decimals"), || wit(json!({"element": tag, "xml": xml})));
+            }
+        }
+        t.count("xml_tag_sequences_checked");
+    }
     // comments and metadata survive escaping
     let mut want_comments: Vec<String> = c.data.iter().map(|e| e.comment().to_string()).filter(|s| !s.is_empty()).map(|s| xml_text_expected(&s)).collect();
     want_comments.extend(ep.wfactors.wdata.iter().map(|f| f.comment.clone()).filter(|s| !s.is_empty()).map(|s| xml_text_expected(&s)));
@@ -506,6 +543,9 @@ pub fn check_case(ctx: &Ctx, case: &Case, idx: u64, with_cli: bool, t: &mut Tall
     } else {
         t.count("cases_without_demands");
     }
+    if !case.spec.lines.iter().any(|l| matches!(l, Line::Used { srv, .. } if EPB.contains(&srv.as_str()))) {
+        t.count("cases_without_any_epb_use");
+    }
     if hostile || carriers_of(&flat(&ep)).len() >= 3 {
         t.nontrivial(case.hash());
         t.sample(|| {
@@ -618,6 +658,10 @@ pub fn gen_output_case(r: &mut Rng, thorough: bool) -> Case {
             case.spec.meta.push((k, r.pick(&HOSTILE_COMMENTS).trim().replace('\t', " ")));
         }
     }
+    // a building without any EPB use (only non-EPB consumption, or only production): empty tables everywhere
+    if r.chance(1, 25) {
+        crate::gen::without_epb_use(&mut case.spec, r);
+    }
     // negative and large values
     match r.below(8) {
         0 => {
@@ -650,6 +694,7 @@ pub fn run(ctx: &Ctx) -> Report {
         ("cases_with_demands".to_string(), tally.get("cases_with_demands"), 500),
         ("cases_without_demands".to_string(), tally.get("cases_without_demands"), 500),
         ("repeated_renderings_compared".to_string(), tally.get("repeated_renderings_compared"), 2000),
+        ("cases_without_any_epb_use".to_string(), tally.get("cases_without_any_epb_use"), 50),
     ];
     if ctx.cli_debug.is_some() {
         quotas.push(("cli_output_sets_checked".to_string(), tally.get("cli_output_sets_checked"), 30));
